@@ -2149,10 +2149,37 @@ type (
 	TagDetails struct {
 		Matches, Uncertain bitmask.LongBitmask
 		Conditions         ConditionsSet
+		// ReferenceTime is the time the time filters in Conditions are relative to (Query.ReferenceTime)
+		ReferenceTime time.Time
 	}
 )
 
-func (cs Conditions) inlineTagFilter(tags map[string]TagDetails) ConditionsSet {
+// withReferenceTime returns the conditions with the time filters made relative to newReferenceTime instead of
+// oldReferenceTime, the conditions themselves are not modified.
+func (cs ConditionsSet) withReferenceTime(oldReferenceTime, newReferenceTime time.Time) ConditionsSet {
+	delta := newReferenceTime.Sub(oldReferenceTime)
+	if delta == 0 {
+		return cs
+	}
+	res := make(ConditionsSet, 0, len(cs))
+	for _, ccs := range cs {
+		ccsNew := make(Conditions, 0, len(ccs))
+		for _, cc := range ccs {
+			if c, ok := cc.(*TimeCondition); ok && c.ReferenceTimeFactor != 0 {
+				cc = &TimeCondition{
+					Summands:            append([]TimeConditionSummand(nil), c.Summands...),
+					Duration:            c.Duration + delta*time.Duration(c.ReferenceTimeFactor),
+					ReferenceTimeFactor: c.ReferenceTimeFactor,
+				}
+			}
+			ccsNew = append(ccsNew, cc)
+		}
+		res = append(res, ccsNew)
+	}
+	return res
+}
+
+func (cs Conditions) inlineTagFilter(tags map[string]TagDetails, referenceTime time.Time) ConditionsSet {
 	const (
 		uncertain = TagConditionAcceptUncertainFailing | TagConditionAcceptUncertainMatching
 		certain   = TagConditionAcceptFailing | TagConditionAcceptMatching
@@ -2175,7 +2202,8 @@ func (cs Conditions) inlineTagFilter(tags map[string]TagDetails) ConditionsSet {
 			}
 			continue
 		}
-		tagConditionsSet := td.Conditions.InlineTagFilters(tags)
+		// the conditions of the tag are relative to the time they were parsed at
+		tagConditionsSet := td.Conditions.InlineTagFilters(tags, td.ReferenceTime).withReferenceTime(td.ReferenceTime, referenceTime)
 		//TODO: rename subqueries in tagConditionsSet to not collide with the normal query
 		if c.Accept&uncertain == TagConditionAcceptUncertainFailing {
 			tagConditionsSet = tagConditionsSet.invert()
@@ -2204,10 +2232,12 @@ func (cs Conditions) inlineTagFilter(tags map[string]TagDetails) ConditionsSet {
 	return csNew
 }
 
-func (cs ConditionsSet) InlineTagFilters(tags map[string]TagDetails) ConditionsSet {
+// InlineTagFilters replaces the filters on tags that are not decided for all streams by the conditions of these tags,
+// referenceTime is the time the time filters in cs are relative to.
+func (cs ConditionsSet) InlineTagFilters(tags map[string]TagDetails, referenceTime time.Time) ConditionsSet {
 	csNew := ConditionsSet{}
 	for _, c := range cs {
-		csNew = append(csNew, c.inlineTagFilter(tags)...)
+		csNew = append(csNew, c.inlineTagFilter(tags, referenceTime)...)
 	}
 	return csNew.Clean()
 }
